@@ -237,13 +237,17 @@ CLAIMED = {
              'iff it exited 1..126/128..255 or was signalled, an error iff it exited 127 or could not be forked/waited for '
              '(C13_command_status, _run); the command status family of tools/cmdstatus.py (27 programs x 10 shapes on the real binary, 34 '
              'outcomes x 12 rule forms in-process) ties both to the code.',
-        note='Also machine-checked: argv = strings.map (cstr . interpolate), same length and order, no splitting of an argument containing '
+        note='What the CHILD receives is in the model since package p14: Call.fork carries the argument vector and the stdin handle (fork '
+             'followed in the child by dup2 + execvp), C13_child_argv / C13_child_stdin / C13_no_shell are about every fork in the trace of '
+             'mainP under arbitrary call results, C13_fd_hygiene gives the descriptor table at that fork, and Model.conform compares vector '
+             'and handle of every fork of the real binary (the shim keeps the child instrumented until its exec call). '
+             'Also machine-checked: argv = strings.map (cstr . interpolate), same length and order, no splitting of an argument containing '
              'blanks/quotes/globs (C13_argv_exact, _length_order, _no_splitting); the stdin content is C11_exec_stdin. Close-on-exec: in '
              'the model every descriptor-creating call IS its close-on-exec form, so the obligation sits in the trace canonicaliser '
              '(tools/world.py maps only openat/fcntl/mkostemp with exactly the modelled flags; anything else stops the conformance) and '
              'in the helper\'s record of inherited descriptors on the real binary (the seeded changes that drop O_CLOEXEC or install the '
              'descriptor with dup2 are detected that way). fork/execvp/dup2 in the child are the kernel\'s.',
-        technique='Lean 4 proof (program-over-calls model, arbitrary results) + helper-recorded exec observations on the real binary'),
+        technique='Lean 4 proof (program-over-calls model, arbitrary results; fork carries argv and stdin) + call-by-call conformance of the real binary incl. what the child execs + helper-recorded observations'),
     'C14': dict(
         text='Machine-checked: the lexer model (Model/Lex.lean, a transcription of yylex1/yypeek) returns a suffix of its input and every '
              'token but end-of-input consumes at least one byte (C14_lexer_total), reads back keywords, strings and age literals and '
